@@ -237,8 +237,13 @@ def run(tier, seed, jobs):
     samples = []
     plans = []
     canary = make_canary()
-    for configs, policies, bound, nslices in plan(tier):
-        tot = explore.explore(configs, policies, bound, SPEC, {'canary': canary}, jobs, seed, nslices)
+    from mc import progfam
+    # hand-built family (mc/progfam.py): every alternative of the overwriting mutation on every core program
+    fam = [(progfam.family_configs(LANGS, 'core' if tier == 'thorough' else 'mini'), ['first'], 1, 1, {'chunk': 24, 'run_kw': {'deviate_stages': ('overwrite',)}})]
+    for part in fam + [tuple(p_) + ({},) for p_ in plan(tier)]:
+        configs, policies, bound, nslices, extra = part
+        tot = explore.explore(configs, policies, bound, SPEC, {'canary': canary}, jobs, seed, nslices,
+                              run_kw=extra.get('run_kw'), chunk=extra.get('chunk'))
         execs += tot.execs
         trans += tot.transitions
         states |= tot.states
